@@ -501,6 +501,60 @@ func checkC08(c *Ctx, r *Report) {
 		r.Floor("C08.R8", nAR, 1, "Accept-Ranges advertisements in processRequest")
 	}
 
+	// ---- R10: the header set stored with an entry is what every later answer from the store relays; it is the
+	// origin's. Nothing in the request path may write into that map (fields that describe one answer — a 206's
+	// Content-Range / Content-Length, X-Cache — belong on the responder), or the next full answer carries them.
+	{
+		isStoredHeader := func(x ssa.Value, cx dctx) bool {
+			var fv *types.Var
+			switch y := x.(type) {
+			case *ssa.FieldAddr, *ssa.Field:
+				fv, _, _ = fieldOf(y)
+			case *ssa.UnOp:
+				if fa, ok := y.X.(*ssa.FieldAddr); ok {
+					fv, _, _ = fieldOf(fa)
+				}
+			}
+			if fv == nil || fv.Name() != "Header" {
+				return false
+			}
+			// the Header field of the per-entry object stored in the cache (cachedRequestInfo), not of http.Request/Response
+			return fv.Pkg() != nil && fv.Pkg().Path() == proxyPkg
+		}
+		nMut := 0
+		for _, f := range li.Fns {
+			if pk := originPkgPath(f); pk != proxyPkg && pk != "reservoir/proxy/responder" {
+				continue
+			}
+			eachInstr(f, func(in ssa.Instruction) {
+				var m ssa.Value
+				what := ""
+				switch x := in.(type) {
+				case *ssa.Call:
+					switch n := calleeName(x); n {
+					case "(net/http.Header).Set", "(net/http.Header).Add", "(net/http.Header).Del", "(net/textproto.MIMEHeader).Set", "(net/textproto.MIMEHeader).Add", "(net/textproto.MIMEHeader).Del":
+						m, what = callArgs(x)[0], n
+					case "maps.Copy":
+						m, what = x.Call.Args[0], n
+					}
+				case *ssa.MapUpdate:
+					if isHTTPHeaderType(x.Map.Type()) {
+						m, what = x.Map, "map assignment"
+					}
+				}
+				if m == nil {
+					return
+				}
+				nMut++
+				if derivesFromDeep(m, nil, isStoredHeader) {
+					r.Fail("C08.R10", fnKey(f)+": write into the stored header set", c.InstrPos(in), what+" writes into the header map that is stored with the cache entry (the origin's header set, shared by every later answer from the store): the fields of this one answer leak into the following ones — a full 200 after a range request carries the 206's Content-Range and Content-Length and a cut body")
+				}
+			})
+		}
+		r.OkT("C08.R10", "no write into a stored entry's header set", "-", fmt.Sprintf("%d header-map writes in the request path, none targets cachedRequestInfo.Header", nMut))
+		r.Floor("C08.R10", nMut, 3, "header-map writes examined in proxy / responder")
+	}
+
 	// ---- R4
 	for _, f := range c.FuncsNamed(proxyPkg + ".changeRequestToTarget") {
 		got := map[string]string{}
@@ -736,6 +790,117 @@ func checkC10(c *Ctx, r *Report) {
 			p0.i++
 			undrained := len(walkFrom(p0, isDrain, func(in ssa.Instruction) bool { return in == ssa.Instruction(read) }, nil)) > 0
 			r.Check(!undrained, "C10.R8", fnKey(g)+": the request body is consumed before the next request is read", c.InstrPos(handle), "every path from handleHTTP back to http.ReadRequest passes io.Copy(io.Discard, req.Body)", "the tunnel loop reads the next request without having consumed the rest of the current request's body: a body the handler did not read (cache hit, coalesced follower) is parsed as the next request and answered — the client's real next request gets that answer")
+			// (e) a request whose body the upstream transport has sent and closed (every POST / PUT that was relayed) does
+			// not end the tunnel: the drain then fails with http.ErrBodyReadAfterClose although nothing is left on the
+			// connection (closing a request body reads it to its end). Assuming the drain's error is that one, every
+			// path goes back to http.ReadRequest; none leaves the loop.
+			eachInstr(g, func(in ssa.Instruction) {
+				if !isDrain(in) {
+					return
+				}
+				dcall := in.(*ssa.Call)
+				var derr ssa.Value
+				if tup, isT := dcall.Type().(*types.Tuple); isT {
+					if ex := extractOf(dcall, tup.Len()-1); ex != nil {
+						derr = ex
+					}
+				}
+				if derr == nil {
+					return // the error of the drain is ignored: nothing can end the tunnel on it
+				}
+				isClosedTest := func(v ssa.Value) (neg bool, ok bool) {
+					for {
+						if u, isU := v.(*ssa.UnOp); isU && u.Op == token.NOT {
+							neg, v = !neg, u.X
+							continue
+						}
+						break
+					}
+					sentinel := func(x ssa.Value) bool {
+						u, ok := x.(*ssa.UnOp)
+						if !ok {
+							return false
+						}
+						gl, ok := u.X.(*ssa.Global)
+						return ok && gl.Name() == "ErrBodyReadAfterClose"
+					}
+					switch x := v.(type) {
+					case *ssa.Call:
+						if calleeName(x) == "errors.Is" && len(x.Call.Args) == 2 && sentinel(unconv(x.Call.Args[1])) {
+							return neg, true
+						}
+					case *ssa.BinOp:
+						if (x.Op == token.EQL || x.Op == token.NEQ) && (sentinel(unconv(x.X)) || sentinel(unconv(x.Y))) {
+							if x.Op == token.NEQ {
+								neg = !neg
+							}
+							return neg, true
+						}
+					}
+					return false, false
+				}
+				nn := pruneNil(g, derr, false)
+				assume := func(b *ssa.BasicBlock, si int) bool {
+					if nn(b, si) {
+						return true
+					}
+					if ifi, ok := b.Instrs[len(b.Instrs)-1].(*ssa.If); ok {
+						if neg, is := isClosedTest(ifi.Cond); is {
+							// keep only the edge on which "err is ErrBodyReadAfterClose" holds
+							trueEdge := 0
+							if neg {
+								trueEdge = 1
+							}
+							return si != trueEdge
+						}
+					}
+					return false
+				}
+				pd := posOf(dcall)
+				pd.i++
+				leaves := walkFrom(pd, func(in2 ssa.Instruction) bool { return in2 == ssa.Instruction(read) }, isReturn, assume)
+				r.Check(len(leaves) == 0, "C10.R8", fnKey(g)+": a request body already consumed by the upstream transport does not end the tunnel", c.InstrPos(dcall), "with the drain's error taken to be http.ErrBodyReadAfterClose every path returns to http.ReadRequest", "the tunnel loop is left when draining the request body fails, also when the failure is http.ErrBodyReadAfterClose — which is what the drain returns for every request body the upstream transport has sent and closed: each POST / PUT ends the tunnel and a request pipelined behind it is never answered, unlike on a plain connection")
+			})
+			// (f) the responder of an exchange is told which request it answers before the exchange runs: the answer to HEAD
+			// has no body whatever is written (an error text after HEAD is read as the start of the next response)
+			{
+				told := false
+				hargs := callArgs(handle)
+				var respV ssa.Value
+				if len(hargs) >= 2 {
+					respV = resolveVal(unconv(hargs[1]))
+				}
+				eachInstr(g, func(in ssa.Instruction) {
+					x, ok := in.(*ssa.Call)
+					if !ok || told || x == handle || !instrDominates(x, handle) {
+						return
+					}
+					h := unwrapSynthetic(staticCallee(x))
+					if h == nil || h.Blocks == nil || originPkgPath(h) != "reservoir/proxy/responder" {
+						return
+					}
+					onResp, withReq := false, false
+					for _, a := range callArgs(x) {
+						if respV != nil && resolveVal(unconv(a)) == respV {
+							onResp = true
+						}
+						if reqV != nil && derivesFrom(a, func(v ssa.Value) bool { return v == ssa.Value(reqV) }) {
+							withReq = true
+						}
+					}
+					if !onResp || !withReq {
+						return
+					}
+					eachInstr(h, func(i2 ssa.Instruction) {
+						if st, ok := i2.(*ssa.Store); ok {
+							if fv, _, is := fieldOf(st.Addr); is && fv.Name() == "Request" {
+								told = true
+							}
+						}
+					})
+				})
+				r.Check(told, "C10.R7", fnKey(g)+": the exchange's responder knows the request method", c.InstrPos(handle), "a responder method that records the request (response.Request) is called with this exchange's request before handleHTTP", "the tunnel responder is not told which request it answers: an error answer (502, 416, 508 ...) to a HEAD request is written with its message as body, which the client does not read after HEAD and takes for the start of the next response")
+			}
 			// (c) a request that cannot be parsed is answered (400) before the tunnel is given up, as on a plain connection:
 			// from the err != nil edge of ReadRequest every way out passes a WriteError, except where the error is io.EOF
 			if rerr := extractOf(read, 1); rerr != nil {
@@ -1052,4 +1217,9 @@ func setHeadersForms(c *Ctx, li *LockInfo, r *Report, rule string) map[string]st
 		}
 	}
 	return forms
+}
+
+func isHTTPHeaderType(t types.Type) bool {
+	s := t.String()
+	return s == "net/http.Header" || s == "net/textproto.MIMEHeader" || s == "map[string][]string"
 }
